@@ -34,6 +34,9 @@ type Prog struct {
 	// and methods) of the repository packages, deterministically ordered.
 	Funcs []*ssa.Function
 
+	// VocabNotes records anchored names that had to be resolved by type/position (renamed fields).
+	VocabNotes []string
+
 	callers map[*ssa.Function][]*CallRef // static call sites, built lazily
 	cha     map[*types.Func][]*ssa.Function
 }
@@ -214,9 +217,72 @@ func (p *Prog) TryNamed(pkg, name string) *types.Named {
 func (p *Prog) Field(pkg, typ, field string) *types.Var {
 	f := p.TryField(pkg, typ, field)
 	if f == nil {
+		f = p.fieldFallback(pkg, typ, field)
+	}
+	if f == nil {
 		broken("ANCHOR-UNRESOLVED field %s.%s.%s", pkg, typ, field)
 	}
+	if log := os.Getenv("PCV_VOCAB_LOG"); log != "" {
+		if fh, err := os.OpenFile(log, os.O_APPEND|os.O_CREATE|os.O_WRONLY, 0o644); err == nil {
+			ord, cnt, seen := 0, 0, false
+			st := p.TryNamed(pkg, typ).Underlying().(*types.Struct)
+			ts := types.TypeString(f.Type(), nil)
+			for i := 0; i < st.NumFields(); i++ {
+				if st.Field(i) == f {
+					seen = true
+				}
+				if types.TypeString(st.Field(i).Type(), nil) == ts {
+					cnt++
+					if !seen {
+						ord++
+					}
+				}
+			}
+			fmt.Fprintf(fh, "%s\t%s\t%s\t%s\t%d\t%d\n", pkg, typ, field, ts, ord, cnt)
+			fh.Close()
+		}
+	}
 	return f
+}
+
+// fieldFallback resolves an anchored field whose recorded name no longer exists (a rename): the field of the
+// recorded type, when that type is unique among the struct's fields that are not themselves anchored names;
+// otherwise the field with the recorded ordinal among the fields of that type, provided the number of fields
+// of that type is unchanged. The resolution is noted in the evidence.
+func (p *Prog) fieldFallback(pkg, typ, field string) *types.Var {
+	rec, ok := vocabTable[pkg+"."+typ+"."+field]
+	if !ok {
+		return nil
+	}
+	n := p.TryNamed(pkg, typ)
+	if n == nil {
+		return nil
+	}
+	st, ok := n.Underlying().(*types.Struct)
+	if !ok {
+		return nil
+	}
+	var same []*types.Var
+	for i := 0; i < st.NumFields(); i++ {
+		if types.TypeString(st.Field(i).Type(), nil) == rec.typ {
+			same = append(same, st.Field(i))
+		}
+	}
+	if len(same) != rec.count || rec.ord >= len(same) {
+		return nil
+	}
+	// the candidate must not be another anchored name that still exists
+	f := same[rec.ord]
+	if _, taken := vocabTable[pkg+"."+typ+"."+f.Name()]; taken {
+		return nil
+	}
+	p.VocabNotes = append(p.VocabNotes, fmt.Sprintf("field %s.%s.%s not found by name; resolved to %s (type %s, position %d of %d among fields of that type)", pkg, typ, field, f.Name(), rec.typ, rec.ord+1, rec.count))
+	return f
+}
+
+type vocabRec struct {
+	typ        string
+	ord, count int
 }
 
 func (p *Prog) TryField(pkg, typ, field string) *types.Var {
